@@ -99,7 +99,12 @@ impl Encoder for TTYEncoder {
             EraseLineLeft => out.write_all(b"\x1b[1K")?,
             EraseLine => out.write_all(b"\x1b[2K")?,
             EraseScreen => out.write_all(b"\x1b[2J")?,
-            EraseChars(count) => write!(out, "\x1b[{}X", count)?,
+            EraseChars(count) => {
+                // zero is interpreted as default value (one) by terminals
+                if count > 0 {
+                    write!(out, "\x1b[{}X", count)?
+                }
+            }
             Face(face) => {
                 self.chunks.clear();
                 self.chunks.push(b"0");
